@@ -114,6 +114,19 @@ fn check_accessors(v: &mut V, tx: &Transaction, r: &RTx, b: &[u8]) {
     }
 }
 
+/// Total of the spent values: known only from the annotations the construction API puts on inputs (the wire form has
+/// none), and only when every input carries one. Not judged for a transaction without inputs.
+fn check_satoshis_in(v: &mut V, tx: &Transaction, annotations: &[Option<u64>]) {
+    if annotations.is_empty() {
+        return;
+    }
+    let want = annotations.iter().try_fold(0u64, |a, x| x.and_then(|x| a.checked_add(x)));
+    if annotations.iter().all(|x| x.is_some()) && want.is_none() {
+        return; // sum does not fit u64
+    }
+    v.eq("satoshis_in", tx.satoshis_in(), want);
+}
+
 /// Build the same transaction through the construction API.
 fn construct(r: &RTx, variant: u64) -> Result<Vec<u8>, String> {
     let mut tx = Transaction::new(r.version, r.locktime);
@@ -169,6 +182,19 @@ enum HOp {
     Insert(usize, usize),
     Set(usize, usize),
     AddMany(usize, usize),
+    /// set_version(HIST_SCALARS[k]); for k = 1 the history continues on the object the setter returns
+    Version(usize),
+    /// set_nlocktime(HIST_SCALARS[k]); likewise
+    Locktime(usize),
+}
+
+const HIST_SCALARS: [u32; 2] = [0x0a0b0c0d, 1];
+
+#[derive(Clone)]
+struct HModel {
+    list: Vec<usize>,
+    version: u32,
+    locktime: u32,
 }
 
 const HIST_MAX_LEN: usize = 4;
@@ -195,6 +221,10 @@ fn history_ops(len: usize) -> Vec<HOp> {
             }
         }
     }
+    for k in 0..2 {
+        v.push(HOp::Version(k));
+        v.push(HOp::Locktime(k));
+    }
     v
 }
 
@@ -206,14 +236,35 @@ fn hist_in(k: usize) -> RIn {
     RIn { txid_wire: t, vout: 0x0100 + k as u32, script: vec![0x51 + k as u8], sequence: 0xfffffff0 + k as u32 }
 }
 
+/// Spent-value annotation of history operand k (operand 0 carries one, operand 1 does not).
+fn hist_in_satoshis(k: usize) -> Option<u64> {
+    if k == 0 {
+        Some(0x0000_0001_0000_0007)
+    } else {
+        None
+    }
+}
+
 fn hist_out(k: usize) -> ROut {
     ROut { value: 0x0102030405060700 + k as u64, script: vec![0x76, 0xa9, 0x01, k as u8, 0x88, 0xac] }
 }
 
-fn history_dfs(tx: &mut Transaction, model: &mut Vec<usize>, trail: &mut Vec<HOp>, op: HOp, depth: usize, acc: &mut Acc, case: &Case) {
+fn history_dfs(tx: &mut Transaction, hm: &mut HModel, trail: &mut Vec<HOp>, op: HOp, depth: usize, acc: &mut Acc, case: &Case) {
+    let saved_hm = hm.clone();
+    match op {
+        HOp::Version(k) => hm.version = HIST_SCALARS[k],
+        HOp::Locktime(k) => hm.locktime = HIST_SCALARS[k],
+        _ => {}
+    }
+    let (version, locktime) = (hm.version, hm.locktime);
+    let model = &mut hm.list;
     let lib_in = |k: usize| {
         let r = hist_in(k);
-        TxIn::new(&r.txid_display(), r.vout, &Script::from_bytes(&r.script).unwrap(), Some(r.sequence))
+        let mut i = TxIn::new(&r.txid_display(), r.vout, &Script::from_bytes(&r.script).unwrap(), Some(r.sequence));
+        if let Some(s) = hist_in_satoshis(k) {
+            i.set_satoshis(s);
+        }
+        i
     };
     let lib_out = |k: usize| {
         let r = hist_out(k);
@@ -247,6 +298,18 @@ fn history_dfs(tx: &mut Transaction, model: &mut Vec<usize>, trail: &mut Vec<HOp
                 t.add_inputs(vec![lib_in(a), lib_in(b)]);
                 t.add_outputs(vec![lib_out(a), lib_out(b)]);
             }
+            HOp::Version(k) => {
+                let r = t.set_version(HIST_SCALARS[k]);
+                if k == 1 {
+                    t = r;
+                }
+            }
+            HOp::Locktime(k) => {
+                let r = t.set_nlocktime(HIST_SCALARS[k]);
+                if k == 1 {
+                    t = r;
+                }
+            }
         }
         let bytes = t.to_bytes().map_err(|e| e.to_string());
         let firsts: Vec<Option<(u32, u64)>> = (0..t.get_ninputs().max(t.get_noutputs())).map(|i| t.get_input(i).map(|x| x.get_vout()).zip(t.get_output(i).map(|o| o.get_satoshis()))).collect();
@@ -261,14 +324,17 @@ fn history_dfs(tx: &mut Transaction, model: &mut Vec<usize>, trail: &mut Vec<HOp
             model.push(a);
             model.push(b);
         }
+        HOp::Version(_) | HOp::Locktime(_) => {}
     }
-    let want = RTx { version: 2, locktime: 0x01020304, inputs: model.iter().map(|k| hist_in(*k)).collect(), outputs: model.iter().map(|k| hist_out(*k)).collect() };
+    let want = RTx { version, locktime, inputs: model.iter().map(|k| hist_in(*k)).collect(), outputs: model.iter().map(|k| hist_out(*k)).collect() };
     let kind = match op {
         HOp::Add(_) => "add",
         HOp::Prepend(_) => "prepend",
         HOp::Insert(..) => "insert",
         HOp::Set(..) => "set",
         HOp::AddMany(..) => "add_many",
+        HOp::Version(_) => "set_version",
+        HOp::Locktime(_) => "set_nlocktime",
     };
     let input = || json!({"calls_on_inputs_and_outputs_alike": format!("{:?}", trail), "model_list_after": model.clone()});
     let mut ok = false;
@@ -285,19 +351,38 @@ fn history_dfs(tx: &mut Transaction, model: &mut Vec<usize>, trail: &mut Vec<HOp
             } else if !acc_ok {
                 acc.violate(format!("C01/assembly/after={}/kind=accessors-differ-from-list-model", kind), case.idx, case.json(input()), format!("(vout, value) per position: {:?}", firsts));
             } else {
-                ok = true;
-                *tx = t;
+                // every accessor (id, size, outpoints, totals, per-element getters) must describe the object as it is
+                // *now*: a value remembered from before the call (memoised id, cached size, stale total) shows up here
+                let before = acc.violations.values().map(|x| x.0).sum::<u64>();
+                let mut v = V { acc, case, input: input() };
+                let notes: Vec<Option<u64>> = model.iter().map(|k| hist_in_satoshis(*k)).collect();
+                if let Err(p) = guard(|| {
+                    check_accessors(&mut v, &t, &want, &wb);
+                    check_satoshis_in(&mut v, &t, &notes);
+                }) {
+                    v.bad(&format!("assembly/accessors/kind=panic@{}", panic_site(&p)), p);
+                }
+                if acc.violations.values().map(|x| x.0).sum::<u64>() == before {
+                    ok = true;
+                    *tx = t;
+                }
             }
         }
     }
+    let len_now = model.len();
     if ok && trail.len() < depth {
-        for next in history_ops(model.len()) {
-            history_dfs(tx, model, trail, next, depth, acc, case);
+        for next in history_ops(len_now) {
+            // two scalar setters in a row add nothing a single one does not show
+            if matches!(op, HOp::Version(_) | HOp::Locktime(_)) && matches!(next, HOp::Version(_) | HOp::Locktime(_)) {
+                continue;
+            }
+            history_dfs(tx, hm, trail, next, depth, acc, case);
         }
     }
     trail.pop();
     *tx = saved_tx;
-    *model = saved_model;
+    let _ = saved_model;
+    *hm = saved_hm;
 }
 
 /// The C01 oracle for one candidate byte string.
@@ -360,7 +445,11 @@ fn eval_inner(b: &[u8], env: &c02::Env, acc: &mut Acc, case: &Case, desc: &dyn F
                     if back != b {
                         v.bad("to_bytes/kind=roundtrip-differs", format!("re-serialised as {}", hx(&back)));
                     }
-                    if let Err(p) = guard(|| check_accessors(&mut v, &tx, r, b)) {
+                    if let Err(p) = guard(|| {
+                        check_accessors(&mut v, &tx, r, b);
+                        // the wire form carries no spent values
+                        check_satoshis_in(&mut v, &tx, &vec![None; r.inputs.len()]);
+                    }) {
                         v.bad(&format!("accessors/kind=panic@{}", panic_site(&p)), p);
                     }
                     match guard(|| Transaction::from_hex(&hex::encode(b)).and_then(|t| t.to_bytes())) {
@@ -725,7 +814,7 @@ pub fn spaces(tier: Tier) -> Vec<Space> {
         let nf = firsts.len() as u64;
         v.push(Space::new("assembly-histories", nf, move |case, acc| {
             let mut tx = Transaction::new(2, 0x01020304);
-            let mut model: Vec<usize> = vec![];
+            let mut model = HModel { list: vec![], version: 2, locktime: 0x01020304 };
             let mut trail: Vec<HOp> = vec![];
             history_dfs(&mut tx, &mut model, &mut trail, firsts[case.idx as usize], depth, acc, case);
         }));
